@@ -1,0 +1,13 @@
+//go:build verif
+
+package io
+
+// Contracts for the verification machinery (govc): comment-only file.
+
+// PrintMessage writes a warning line to os.Stderr. It reads runtime.Caller and indexes the
+// result of strings.Split(fn, "goalign/") at len-1: strings.Split with a non-empty separator
+// always returns at least one element, so the index is in bounds. No repository state is touched.
+//@ func PrintMessage
+//@   props C03
+//@   trusted diagnostic output to os.Stderr only (runtime.Caller, strings.Split with a non-empty separator returns >= 1 element, fmt.Fprintf); touches no program state
+//@   modifies nothing
